@@ -327,7 +327,7 @@ func (m *Model) onDonate(chain, from int, e *End, coin string, amt *big.Int) {
 // ExpectRecvSuccess is the model's prediction for a receive of p processed now: it fails when
 // receiving is disabled on the destination or a leg names an invalid or blocked receiver.
 func (w *World) ExpectRecvSuccess(p *TPkt) bool {
-	if w.RecvDisabled[p.Dst.Chain] {
+	if w.RecvDisabled[p.Dst.Chain] || p.Dst.Mock {
 		return false
 	}
 	for _, l := range p.Legs {
